@@ -73,8 +73,8 @@ Proof.
   - (* RenameSpace *)
     unfold step_rename_space, reject. destruct s as [|x t]; [exact S|].
     destruct (negb (has_space st (x :: t))) eqn:H; [exact S|]. apply negb_false_iff in H.
-    destruct (negb (can_add_space st _ new)); [exact S|].
     destruct (negb (is_valid_name new)); [exact S|]. cbn [snd].
+    destruct (negb (can_add_space st _ new)); [exact S|].
     apply struct_relabel; [apply memb_In, H|exact S].
   - (* AddBases *)
     unfold step_add_bases, reject. destruct (negb (has_space st s)); [exact S|].
@@ -127,14 +127,14 @@ Proof.
   - apply step_wf; [exact W|]. intros p new ->. simpl. unfold step_rename_space, reject.
     destruct p as [|x t]; [exact W|].
     destruct (negb (has_space st (x :: t))) eqn:H; [exact W|]. apply negb_false_iff in H.
-    destruct (negb (can_add_space st _ new)) eqn:C; [exact W|]. apply negb_false_iff in C.
     destruct (negb (is_valid_name new)); [exact W|]. cbn [snd].
+    destruct (negb (can_add_space st _ new)) eqn:C; [exact W|]. apply negb_false_iff in C.
     apply relabel_wf; auto; [apply memb_In, H|apply can_add_space_fresh, C].
   - apply step_disj; auto. intros p new ->. simpl. unfold step_rename_space, reject.
     destruct p as [|x t]; [exact D|].
     destruct (negb (has_space st (x :: t))) eqn:H; [exact D|]. apply negb_false_iff in H.
-    destruct (negb (can_add_space st _ new)) eqn:C; [exact D|]. apply negb_false_iff in C.
     destruct (negb (is_valid_name new)); [exact D|]. cbn [snd].
+    destruct (negb (can_add_space st _ new)) eqn:C; [exact D|]. apply negb_false_iff in C.
     apply relabel_disj; auto. apply memb_In, H.
 Qed.
 
